@@ -4,7 +4,7 @@
      mloda/core/api/request.py
        mlodaAPI.__init__       deepcopy(requested_features) if copy_features                          -> deepcopy_heap
        _process_features       feature.initial_requested_data = True; options.add("ApiInputData", cols);
-                               options.add(strict_type_enforcement, True) for typed features          -> phase1
+                               options.add(strict_type_enforcement, True) for every requested feature (fix 04e88fc)          -> phase1
      mloda/core/abstract_plugins/components/options.py
        Options.add / add_to_group + OptionsValidator.validate_can_add_to_group                       -> opt_add
      mloda/core/core/engine.py
@@ -211,7 +211,7 @@ Definition phase1_one (api : option cols) (strict : bool) (h : heap) (a : nat) :
               end in
     match snd r2 with
     | Some e => r2
-    | None => if strict && (match f_dtype f with Some _ => true | None => false end)
+    | None => if strict       (* after fix 04e88fc: every requested feature, typed or not *)
               then match heap_add (fst r2) (f_opt f) strict_key (VB true) with
                    | Some h3 => (h3, None) | None => (fst r2, Some EAddConflict) end
               else r2
